@@ -6,8 +6,10 @@
 //	R4  os.ReadFile / ioutil.ReadFile                 ->  simrt.ReadFile
 //	R6  chan T, make(chan T, n), ch <- v, <-ch, v, ok := <-ch, close(ch), len/cap(ch), range ch  ->  simrt.Chan[T]
 //	R7  sync.Once -> simrt.Once, time.Sleep -> simrt.Sleep, runtime.Gosched -> simrt.Yield
-//	R5  report constructs the simulator does not manage (select, sync/atomic, sync.Cond and friends,
-//	    timers, math/rand)
+//	R8  select { case v := <-a: … case b <- x: … default: … }  ->  switch over simrt.Select(…)
+//	R9  time.Now/Since/After/AfterFunc/NewTimer/Sleep  ->  the simulated clock
+//	R5  report constructs the simulator does not manage (sync/atomic is left real; sync.Cond and friends,
+//	    tickers, math/rand)
 //
 // Edits are byte-range splices driven by go/types; every line that is not touched
 // keeps its text and its line number. Test files are left alone.
@@ -224,14 +226,15 @@ func rewriteFile(fs *fileState) {
 				fs.add(s, e, false, func() string { return "simrt.Once" })
 				rep.Edits["R7 sync.Once"]++
 				needSimrt = true
-			case path == "time" && name == "Sleep":
+			case path == "time" && (name == "Sleep" || name == "Now" || name == "Since" || name == "After" || name == "AfterFunc" || name == "NewTimer" || name == "Timer"):
 				s, e := fs.off(x.Pos()), fs.off(x.End())
-				fs.add(s, e, false, func() string { return "simrt.Sleep" })
-				rep.Edits["R7 time.Sleep"]++
+				nm := name
+				fs.add(s, e, false, func() string { return "simrt." + nm })
+				rep.Edits["R9 time."+name]++
 				needSimrt = true
 			case path == "runtime" && name == "Gosched":
 				s, e := fs.off(x.Pos()), fs.off(x.End())
-				fs.add(s, e, false, func() string { return "simrt.Yield" })
+				fs.add(s, e, false, func() string { return "simrt.Gosched" })
 				rep.Edits["R7 runtime.Gosched"]++
 				needSimrt = true
 			default:
@@ -260,7 +263,11 @@ func rewriteFile(fs *fileState) {
 			rep.Edits["R6 chan type"]++
 			needSimrt = true
 		case *ast.SelectStmt:
-			unmanaged(x.Pos(), "select statement")
+			if labeled[x] {
+				unmanaged(x.Pos(), "labeled select statement")
+			} else if fs.rewriteSelect(x) {
+				needSimrt = true
+			}
 		case *ast.SendStmt:
 			st := x
 			var self *edit
@@ -505,4 +512,117 @@ func (fs *fileState) rewriteRangeChan(r *ast.RangeStmt) bool {
 	fs.add(ce, ce, false, func() string { return " }" })
 	rep.Edits["R6 range-chan"]++
 	return true
+}
+
+// rewriteSelect turns a select statement into a switch over simrt.Select. Channel operands and send values are
+// evaluated once, in source order, on entry (as the language does); the chosen case completes its operation
+// with TakeSelected / PutSelected.
+func (fs *fileState) rewriteSelect(sel *ast.SelectStmt) bool {
+	uniq++
+	id := uniq
+	type clause struct {
+		cc    *ast.CommClause
+		ch    ast.Expr
+		val   ast.Expr // send value
+		lhs   []ast.Expr
+		tok   token.Token
+		isDef bool
+	}
+	var cls []clause
+	for _, st := range sel.Body.List {
+		cc := st.(*ast.CommClause)
+		c := clause{cc: cc}
+		switch comm := cc.Comm.(type) {
+		case nil:
+			c.isDef = true
+		case *ast.SendStmt:
+			c.ch, c.val = comm.Chan, comm.Value
+		case *ast.ExprStmt:
+			u, ok := unparen(comm.X).(*ast.UnaryExpr)
+			if !ok {
+				unmanaged(sel.Pos(), "select case of unknown form")
+				return false
+			}
+			c.ch = u.X
+		case *ast.AssignStmt:
+			u, ok := unparen(comm.Rhs[0]).(*ast.UnaryExpr)
+			if !ok {
+				unmanaged(sel.Pos(), "select case of unknown form")
+				return false
+			}
+			c.ch, c.lhs, c.tok = u.X, comm.Lhs, comm.Tok
+		}
+		cls = append(cls, c)
+	}
+	// header: from `select` to the opening brace
+	var self *edit
+	self = fs.add(fs.off(sel.Select), fs.off(sel.Body.Lbrace)+1, true, func() string {
+		var b strings.Builder
+		b.WriteString("{ ")
+		var cases []string
+		hasDef := "false"
+		n := 0
+		for _, c := range cls {
+			if c.isDef {
+				hasDef = "true"
+				continue
+			}
+			fmt.Fprintf(&b, "__c%d_%d := %s; ", id, n, fs.renderNode(c.ch, self))
+			if c.val != nil {
+				fmt.Fprintf(&b, "__x%d_%d := %s; ", id, n, fs.renderNode(c.val, self))
+				cases = append(cases, fmt.Sprintf("simrt.SendCase(__c%d_%d)", id, n))
+			} else {
+				cases = append(cases, fmt.Sprintf("simrt.RecvCase(__c%d_%d)", id, n))
+			}
+			n++
+		}
+		fmt.Fprintf(&b, "__i%d, __h%d := simrt.Select(%s", id, id, hasDef)
+		for _, c := range cases {
+			b.WriteString(", " + c)
+		}
+		fmt.Fprintf(&b, "); _ = __h%d; switch __i%d {", id, id)
+		return b.String()
+	})
+	n := 0
+	for _, c := range cls {
+		c := c
+		idx := n
+		if !c.isDef {
+			n++
+		}
+		// clause header: `case <comm>:` or `default:`
+		hs, he := fs.off(c.cc.Case), fs.off(c.cc.Colon)+1
+		var cself *edit
+		cself = fs.add(hs, he, true, func() string {
+			if c.isDef {
+				return "default:"
+			}
+			ch := fmt.Sprintf("__c%d_%d", id, idx)
+			has := fmt.Sprintf("__h%d", id)
+			switch {
+			case c.val != nil:
+				return fmt.Sprintf("case %d: %s.PutSelected(__x%d_%d);", idx, ch, id, idx)
+			case len(c.lhs) == 0:
+				return fmt.Sprintf("case %d: %s.TakeSelected(%s);", idx, ch, has)
+			case len(c.lhs) == 1:
+				return fmt.Sprintf("case %d: %s %s %s.TakeSelected1(%s);", idx, fs.renderNode(c.lhs[0], cself), c.tok, ch, has)
+			default:
+				return fmt.Sprintf("case %d: %s, %s %s %s.TakeSelected(%s);", idx, fs.renderNode(c.lhs[0], cself), fs.renderNode(c.lhs[1], cself), c.tok, ch, has)
+			}
+		})
+	}
+	ce := fs.off(sel.Body.Rbrace) + 1
+	fs.add(ce, ce, false, func() string { return " }" })
+	rep.Edits["R8 select"]++
+	return true
+}
+
+func unparen(e ast.Expr) ast.Expr {
+	for {
+		p, ok := e.(*ast.ParenExpr)
+		if !ok {
+			return e
+		}
+		e = p.X
+	}
 }
